@@ -207,12 +207,15 @@ def work(item):
     res = Result(f"{kind}|{p['label']}")
     from orquestra.quantum.circuits.symbolic import sympy_expressions as SE, translations as TR, _sorting as SO
 
-    res.fn(
-        SE.expression_from_sympy, SE.addition_from_sympy_add, SE.multiplication_from_sympy_mul, SE.power_from_sympy_pow,
-        SE.function_call_from_sympy_function, SE.is_addition_of_negation, SE.is_multiplication_by_reciprocal,
-        SE.native_float_from_sympy_rational, SE.expression_tuple_from_tuple_of_sympy_args, TR.translate_expression,
-        TR.translate_function_call, TR.translate_tuple, SO.natural_key, SO.natural_key_revlex, SO._convert_string_to_int_if_possible,
-    )
+    try:  # evidence only: a renamed private helper must not break the check
+        res.fn(
+            SE.expression_from_sympy, SE.addition_from_sympy_add, SE.multiplication_from_sympy_mul, SE.power_from_sympy_pow,
+            SE.function_call_from_sympy_function, SE.is_addition_of_negation, SE.is_multiplication_by_reciprocal,
+            SE.native_float_from_sympy_rational, SE.expression_tuple_from_tuple_of_sympy_args, TR.translate_expression,
+            TR.translate_function_call, TR.translate_tuple, SO.natural_key, SO.natural_key_revlex, SO._convert_string_to_int_if_possible,
+        )
+    except AttributeError:
+        pass
     try:
         {"rt": _w_rt, "refuse": _w_refuse, "keys": _w_keys}[kind](res, p)
     except Refuse as e:
@@ -364,7 +367,7 @@ def keys_bad(p):
 
     S = sympy.Symbol
     pre, sep, lim = p["prefix"], p.get("sep"), p["limit"]
-    nums = list(range(0, lim)) + [lim * 7, 10**6, 10**6 + 1]
+    nums = list(range(0, lim)) + [lim * 7, 10**6, 10**6 + 1, 99999999, 10**8, 123456789, 10**12, 10**20 + 1]
     if sep is None:
         for a, b in itertools.combinations(nums, 2):
             if not natural_key(S(f"{pre}{a}")) < natural_key(S(f"{pre}{b}")):
@@ -378,7 +381,7 @@ def keys_bad(p):
         if sorted(map(S, reversed(names)), key=natural_key) != list(map(S, names)):
             return f"sorting {pre}<n> by natural_key is not numeric"
         return None
-    small = nums[: min(len(nums), 14)] + [10**6]
+    small = nums[: min(len(nums), 12)] + [10**6, 99999999, 10**8, 10**12]
     for (a1, b1), (a2, b2) in itertools.combinations(list(itertools.product(small, small)), 2):
         k1, k2 = natural_key(S(f"{pre}{a1}{sep}{b1}")), natural_key(S(f"{pre}{a2}{sep}{b2}"))
         if ((a1, b1) < (a2, b2)) != (k1 < k2):
